@@ -81,6 +81,20 @@ def make_ops(fam, vec=None):
         mutate(d)
         return before
 
+    def elsewhere(o, f):
+        """The library's other entry points are used in between (nothing touches the object)."""
+        from .. import dialogue
+        from cvss.parser import parse_cvss_from_text
+        tab = T.METRICS[fam]
+        dialogue.run_builder(fam, True, True, {}, lambda m: [tab[m][0]])
+        parse_cvss_from_text("x " + o.vector + " y")
+        try:
+            type(o).from_rh_vector("0.0/" + o.vector)
+        except Exception:  # noqa
+            pass
+        return "done"
+
+    ops.append(("other_entry_points_used_in_between", elsewhere))
     ops.append(("as_json_then_mutate(sort=False)", lambda o, f: json_mutate(o, f, False, False)))
     ops.append(("as_json_then_mutate(sort=True,minimal=True)", lambda o, f: json_mutate(o, f, True, True)))
     return ops
@@ -198,7 +212,7 @@ def fresh_results(fam, vec):
 
 
 LONG_RUN = {"quick": 300, "thorough": 1500}
-INTERPOSED = {"quick": 320, "thorough": 1300}
+INTERPOSED = {"quick": 560, "thorough": 2400}
 
 
 def long_runs(fam, vec, fresh, n):
@@ -233,48 +247,63 @@ def long_runs(fam, vec, fresh, n):
 
 
 def interposed(fam, vec, fresh, m):
-    """(iv) other objects in between: an equal object spelled differently goes through every
-    operation first, then the object itself, then m other distinct objects of all versions, then
-    the object again - all its results must equal the fresh-object results."""
+    """(iv) other objects in between: m other distinct objects of all versions go through every
+    operation (whatever the fresh-object observation left in a bounded shared cache is gone),
+    then an equal object spelled differently, then the object itself; then the m others again and
+    the object once more - all its results must equal the fresh-object results."""
     cls = observe.cls_of(fam)
     ops = make_ops(fam, vec)
-    calls = 0
-    other = cls(respelled(fam, vec))
-    for name, fn in make_ops(fam, respelled(fam, vec)):
-        fn(other, cls(other.vector))
-        calls += 1
+    calls = [0]
+    per = max(1, m // 8)
+    others = []
+    from .. import spaces
+    for f2 in [fam] + [f for f in T.FAMILIES if f != fam]:
+        k = m - 3 * per if f2 == fam else per
+        others += [(f2, v) for v in spaces.many_vectors(f2, k) if v != vec]
+
+    def crowd():
+        for f2, v in others:
+            try:
+                x = observe.cls_of(f2)(v)
+                for name, fn in make_ops(f2):
+                    fn(x, x)
+                    calls[0] += 1
+            except Exception as e:  # noqa
+                return "another valid object, %s(%r), cannot be built and read: %s: %s" % (
+                    T.CLASSNAME[f2], v, type(e).__name__, e)
+        return None
+
     o, twin = cls(vec), cls(vec)
 
     def all_ops(when):
-        n = 0
         for i, (name, fn) in enumerate(ops):
-            n += 1
+            calls[0] += 1
             try:
                 r = opseq.canon(fn(o, twin))
             except Exception as e:  # noqa
-                return n, "%s raised %s: %s %s" % (name, type(e).__name__, e, when)
+                return "%s raised %s: %s %s" % (name, type(e).__name__, e, when)
             if r != fresh[i]:
-                return n, "%s returns %s %s, but %s on a fresh object" % (
+                return "%s returns %s %s, but %s on a fresh object" % (
                     name, json.dumps(r)[:160], when, json.dumps(fresh[i])[:160])
-        return n, None
+        return None
 
-    n, why = all_ops("after an equal object spelled %r went through the same operations" % other.vector)
-    calls += n
+    why = crowd()
     if why:
-        return calls, why
-    per = max(1, m // 8)
-    others = []
-    for f2 in [fam] + [f for f in T.FAMILIES if f != fam]:
-        k = m - 3 * per if f2 == fam else per
-        others += [(f2, v) for v, _ in observe.covering_seeds(f2, k)]
-    for f2, v in others:
-        x = observe.cls_of(f2)(v)
-        for name, fn in make_ops(f2):
-            fn(x, x)
-            calls += 1
-    n, why = all_ops("after %d other objects went through the same operations" % len(others))
-    calls += n
-    return calls, why
+        return calls[0], why
+    other_vec = respelled(fam, vec)
+    try:
+        other = cls(other_vec)
+        for name, fn in make_ops(fam, other_vec):
+            fn(other, cls(other_vec))
+            calls[0] += 1
+    except Exception as e:  # noqa
+        return calls[0], "the equal object spelled %r cannot be built and read: %s: %s" % (other_vec, type(e).__name__, e)
+    why = all_ops("after %d other objects and then an equal object spelled %r went through the same operations" % (
+        len(others), other_vec))
+    if why:
+        return calls[0], why
+    why = crowd() or all_ops("after %d other objects went through the same operations" % len(others))
+    return calls[0], why
 
 
 def _task(t):
@@ -318,7 +347,7 @@ def _task(t):
             sweep.bad(acc, {"what": "%s(%r): %s" % (T.CLASSNAME[fam], vec, why), "kind": "long", "family": fam,
                             "input": vec, "seq": seq or [], "signature": {"kind": "long"}})
     if not acc["bad"]:
-        calls, why = interposed(fam, vec, fresh, INTERPOSED.get(tier, 320))
+        calls, why = interposed(fam, vec, fresh, INTERPOSED.get(tier, 560))
         acc["calls"] += calls
         acc["extra"]["interposed"] = calls
         if why:
@@ -347,7 +376,7 @@ def run(ctx, res):
     cov["long_run_calls"] = sum(a["extra"].get("long", 0) for a in accs)
     cov["long_run_length"] = LONG_RUN.get(ctx.tier, 300)
     cov["interposed_calls"] = sum(a["extra"].get("interposed", 0) for a in accs)
-    cov["interposed_objects"] = INTERPOSED.get(ctx.tier, 320)
+    cov["interposed_objects"] = INTERPOSED.get(ctx.tier, 560)
     cov["traces_validated_against_impl"] = tot["cmp"]
     cov["evaluations"] = tot["n"]
     cov["distinct_nontrivial"] = tot["nontrivial"]
@@ -387,7 +416,7 @@ def replay(case):
         return bool(why), why or "pure over %d calls" % calls
     if case["kind"] == "interposed":
         tier = case.get("tier") or "quick"
-        calls, why = interposed(fam, vec, fresh, INTERPOSED.get(tier, 320))
+        calls, why = interposed(fam, vec, fresh, INTERPOSED.get(tier, 560))
         return bool(why), why or "pure over %d calls" % calls
     why = run_sequence(fam, vec, seq, fresh)
     return bool(why), why or "pure"
